@@ -94,7 +94,7 @@ ResetTo(aR, aS, recA) ==
     /\ pubs' = [k \in 1..MaxSend |-> 0] /\ forged' = {} /\ readLog' = {}
 
 TInit ==
-    /\ Init /\ l = 1 /\ HwmInit
+    /\ Init /\ l = 1 /\ HwmInit /\ TLCSet(2, 0)
     /\ hsok = {} /\ disc = {}
     /\ regP = [h \in Handlers |-> "idle"] /\ canP = [h \in Handlers |-> "idle"]
     /\ csP = [k \in 1..2 |-> "idle"] /\ tickCredit = 0
@@ -384,7 +384,12 @@ Pinned ==
 TNext == IF Urgent THEN SUrgent ELSE (Pinned \/ Silent)
 TSpec == TInit /\ [][TNext]_tvars
 
+\* Worlds are independent: every path that consumes a Reset arrives in the same state. Once one path has got
+\* there, what is left to explore before that Reset cannot explain anything more (register 2 = the last Reset
+\* consumed by some path; states before it are not expanded further).
+SeenReset ==
+    IF l > 1 /\ l - 1 <= Len(Trace) /\ Trace[l - 1].event = "Reset" /\ l - 1 > TLCGet(2) THEN TLCSet(2, l - 1) ELSE TRUE
 \* once some path has consumed the whole trace it is explained: stop TLC
-Hwm == HwmConstraint(l) /\ (l > Len(Trace) => TLCSet("exit", TRUE))
+Hwm == HwmConstraint(l) /\ SeenReset /\ l >= TLCGet(2) /\ (l > Len(Trace) => TLCSet("exit", TRUE))
 Accepted == HwmAccepted
 =============================================================================
